@@ -268,7 +268,7 @@ Lin(r, e) ==
   /\ UNCHANGED <<pc, cfg, algVars, nnot, post, disp, clk, dlx, path, ptime, bad, orc>>
 
 LambNextOK(r, t, e) ==
-  CASE e.kind = "fail" -> e.lambNext = Dbl(r, t.lambUsed)
+  CASE e.kind = "fail" -> e.lambNext = (IF inner[r].dl /\ "F8" \notin Faithful THEN t.lambUsed ELSE Dbl(r, t.lambUsed))
     [] cfg[r].ctl = "Exact" -> e.lambNext = (IF e.kind = "accept" THEN Half(r, t.lambUsed) ELSE Dbl(r, t.lambUsed))
     [] cfg[r].ctl = "Fixed" -> e.lambNext = cfg[r].lambInit
     [] OTHER -> IF e.kind = "reject" THEN e.lambNext = Inc(r, t.lambUsed)
@@ -297,7 +297,7 @@ TrialEnd(r, e) ==
   /\ Cl(TwinTag(r), "twin.trial", ~byDeadline => MemoOK(q, a))
   /\ PS(<<
         <<"P:C15", "fail.keepsPoint", e.kind = "fail" => e.pt = t.from>>,
-        <<"P:C15", "nonaccept.shrinks", e.kind # "accept" => Lt(t.lambUsed, e.lambNext)>>,
+        <<"P:C15", "nonaccept.shrinks", (e.kind # "accept" /\ ~inner[r].dl) => Lt(t.lambUsed, e.lambNext)>>,
         <<"P:C07", "fault.notaccepted", inner[r].fault => e.kind # "accept">>,
         <<"P:C08", "deadline.notaccepted", inner[r].dl => e.kind # "accept">>,
         <<"P:C07", "accept.neverfailed", e.kind = "accept" => e.ptx \notin bad[r]>>,
@@ -480,7 +480,7 @@ Raise(r, e) ==
         <<"P:C06", "raise.derivcheck.legit", e.kind = "DerivCheck" => (pc[r] = "Init" /\ cfg[r].derivCheck)>>,
         <<"P:C07", "init.fault.dedicated", (pc[r] = "Init" /\ inner[r].fault) => e.kind = "InitEval">>,
         <<"P:C07", "trial.fault.survived", (pc[r] \in {"InTrial", "Post"} /\ inner[r].fault) => e.kind = "LambMax">>,
-        <<"P:C08", "deadline.never.raises", (dlx[r] /\ cfg[r].twin = "C08" /\ "F8" \notin Faithful) => twinAlsoAborts>>,
+        <<"P:C08", "deadline.never.raises", (dlx[r] /\ cfg[r].twin = "C08") => twinAlsoAborts>>,
         <<"P:C09", "observer.never.raises", e.kind \notin DeliberateErrs => ~(cfg[r].debug \/ disp[r])>>,
         <<"P:C11", "raise.callerdata", e.changed = <<>>>>
      >>)
@@ -514,7 +514,7 @@ C12_CurIsLastCommitted == \A r \in Runs : (Started(r) /\ cfg[r].collectPath) => 
 C15_NoTrialAtLambMax == \A r \in Runs : pc[r] = "InTrial" => Lt(lamb[r], cfg[r].lambMax)
 C15_RejectKeepsPoint == \A r \in Runs : \A k \in 1..Len(hist[r]) :
      (hist[r][k].kind = "fail" => hist[r][k].pt = hist[r][k].from)
-     /\ (hist[r][k].kind # "accept" => Lt(hist[r][k].lambUsed, hist[r][k].lambNext))
+     /\ ((hist[r][k].kind # "accept" /\ hist[r][k].cause # "deadline") => Lt(hist[r][k].lambUsed, hist[r][k].lambNext))
 C15_Chain == \A r \in Runs : \A k \in 1..(Len(hist[r]) - 1) :
      /\ hist[r][k+1].from \in {hist[r][k].from, hist[r][k].pt}
      /\ hist[r][k].kind # "accept" => hist[r][k+1].from = hist[r][k].from
@@ -538,7 +538,7 @@ Twin_SameEnd == \A p \in TwinPairs :
          /\ StripCause(hist[p[1]]) = StripCause(hist[p[2]]))
 C08_NoLeak == \A r \in Runs : pc[r] = "Done" =>
      (result[r].x = cfg[r].start \/ \E k \in 1..Len(hist[r]) : hist[r][k].kind = "accept" /\ hist[r][k].pt = result[r].x)
-C08_StopsAsLimit == "F8" \in Faithful \/ \A r \in Runs : (pc[r] = "Raised" /\ dlx[r]) =>
+C08_StopsAsLimit == \A r \in Runs : (pc[r] = "Raised" /\ dlx[r]) =>
      \E p \in TwinPairs : p[1] = r /\ pc[p[2]] = "Raised"
 
 (* Observer steps stutter on the algorithmic view (C09, single run).        *)
